@@ -157,6 +157,51 @@ class ACond:
         return "(%r %s %r)" % (self.left, self.op, self.right)
 
 
+class StreamVal:
+    """A one-shot iterator over a finite list of (symbolic) items: consumption is state, exactly as for a Python
+    generator, so `peek and put back` code can be judged on what is left in it."""
+
+    def __init__(self, items, name="stream"):
+        self.items, self.pos, self.name = list(items), 0, name
+
+    def __iter__(self):
+        return self
+
+    def __next__(self):
+        if self.pos >= len(self.items):
+            raise StopIteration
+        self.pos += 1
+        return self.items[self.pos - 1]
+
+    def __repr__(self):
+        return "<stream %s at %d/%d>" % (self.name, self.pos, len(self.items))
+
+    def __deepcopy__(self, memo):
+        c = StreamVal(self.items, self.name)
+        c.pos = self.pos
+        return c
+
+
+class HostIter:
+    """A lazy iterator derived from streams (enumerate, chain, islice, a generator being run): consumed item by item."""
+
+    def __init__(self, it, name="iter"):
+        self.it, self.name = it, name
+
+    def __iter__(self):
+        return self
+
+    def __next__(self):
+        return next(self.it)
+
+    def __repr__(self):
+        return "<lazy %s>" % self.name
+
+
+class CounterVal(dict):
+    """collections.Counter"""
+
+
 class SetVal(list):
     """A set, kept as a duplicate-free list in insertion order (iteration order of a real set is unspecified:
     consumers that depend on it should sort)."""
@@ -176,8 +221,8 @@ def _setval(items):
 class Callback:
     """A caller-supplied callable with a known abstract result."""
 
-    def __init__(self, name, result):
-        self.name, self.result = name, result
+    def __init__(self, name, result, fn=None):
+        self.name, self.result, self.fn = name, result, fn
 
     def __repr__(self):
         return "<callback %s>" % self.name
@@ -430,6 +475,8 @@ class Interp:
                     raise Unsupported("for over a list with an opaque splice")
             elif isinstance(it, dict):
                 items = list(it.keys())
+            elif isinstance(it, (StreamVal, HostIter)):
+                items = it      # consumed lazily, one item per pass (a break leaves the rest in place)
             elif isinstance(it, (Opaque, RepList)):
                 self.trace.events.append(("loop-opaque", it, st))
                 items = [Opaque("%s[]" % getattr(it, "name", "rep"), "obj")]
@@ -627,7 +674,7 @@ class Interp:
         if node.id in ("str", "int", "list", "tuple", "dict", "set", "bytes", "float", "bool", "object"):
             return TypeVal(node.id)
         if node.id in ("isinstance", "len", "map", "locals", "hasattr", "any", "all", "sorted", "enumerate",
-                       "range", "zip", "getattr", "iter", "print", "min", "max", "repr", "type", "ord", "chr", "hex", "setattr", "delattr"):
+                       "range", "zip", "getattr", "iter", "print", "min", "max", "repr", "type", "ord", "chr", "hex", "setattr", "delattr", "next"):
             return Builtin(node.id)
         if node.id in ("ValueError", "TypeError", "KeyError", "NotImplementedError", "Exception", "StopIteration"):
             return TypeVal(node.id)
@@ -1039,6 +1086,40 @@ class Interp:
             return Sym("%s[%s]" % (base.name, _nm(key)), "any", None)
         raise Unsupported("subscript of %r" % (base,))
 
+    def _lazy_lib(self, name, pos, kw, node):
+        """itertools / collections.Counter on concrete sequences and streams."""
+        import itertools as _it
+        seq = lambda x: isinstance(x, (list, tuple, StreamVal, HostIter))
+        if name == "itertools.chain" and all(seq(x) for x in pos) and any(isinstance(x, (StreamVal, HostIter)) for x in pos):
+            return HostIter(_it.chain(*pos), "chain(%s)" % ", ".join(getattr(x, "name", "list") for x in pos))
+        if name == "itertools.chain" and all(isinstance(x, (list, tuple)) for x in pos) and pos:
+            return [y for x in pos for y in x]
+        if name == "itertools.islice" and pos and seq(pos[0]) and all(isinstance(x, int) or x is None for x in pos[1:]):
+            if isinstance(pos[0], (StreamVal, HostIter)):
+                return HostIter(_it.islice(pos[0], *pos[1:]), "islice(%s)" % pos[0].name)
+            return list(_it.islice(pos[0], *pos[1:]))
+        if name == "collections.Counter" and not kw:
+            c = CounterVal()
+            if pos:
+                self._counter_update(c, pos[0])
+            return c
+        return NotImplemented
+
+    def _counter_update(self, c, items):
+        if isinstance(items, dict):
+            for k, v in items.items():
+                c[k] = c.get(k, 0) + v
+            return
+        if not isinstance(items, (list, tuple, StreamVal, HostIter)):
+            raise Unsupported("Counter.update(%r)" % (items,))
+        for x in items:
+            key = x
+            for k in c:
+                if k is x or (type(k) is type(x) and k == x):
+                    key = k
+                    break
+            c[key] = c.get(key, 0) + 1
+
     def _copy_of(self, v):
         if isinstance(v, (dict, list)):
             return copy.deepcopy(v)
@@ -1150,9 +1231,12 @@ class Interp:
                 return self.ext_summaries[fn.name](self, pos, kw, node)
             if fn.name in ("copy.copy", "copy.deepcopy") and pos:
                 return self._copy_of(pos[0])
+            r_ = self._lazy_lib(fn.name, pos, kw, node)
+            if r_ is not NotImplemented:
+                return r_
         if isinstance(fn, Callback):
             self.trace.events.append(("callback", fn, pos, kw, node))
-            return fn.result
+            return fn.fn(pos, kw) if fn.fn is not None else fn.result
         if isinstance(fn, LambdaVal):
             a = fn.node.args
             names = [x.arg for x in a.posonlyargs + a.args]
@@ -1188,6 +1272,9 @@ class Interp:
             raise Unsupported("int(%r)" % (v,))
         if name == "str":
             return self.to_str(pos[0]).simplify() if pos else ""
+        if name in ("list", "tuple") and pos and isinstance(pos[0], (StreamVal, HostIter)):
+            out_ = list(pos[0])
+            return out_ if name == "list" else tuple(out_)
         if name == "list":
             if not pos:
                 return []
@@ -1207,6 +1294,13 @@ class Interp:
             if isinstance(v, (list, tuple)):
                 return tuple(v)
             raise Unsupported("tuple(%r)" % (v,))
+        if name in ("list", "tuple") and pos and isinstance(pos[0], (StreamVal, HostIter)):
+            out_ = list(pos[0])
+            return out_ if name == "list" else tuple(out_)
+        if name == "dict" and pos and isinstance(pos[0], CounterVal):
+            d = dict(pos[0])
+            d.update(kw)
+            return d
         if name == "dict":
             d = {}
             if pos:
@@ -1277,6 +1371,8 @@ class Interp:
             if isinstance(a, str):
                 if isinstance(o, Callback):
                     return a == "__call__"
+                if isinstance(o, (StreamVal, HostIter)):
+                    return a in ("__next__", "__iter__", "next")
                 if isinstance(o, (str, list, tuple, dict, int, float)) or o is None:
                     return hasattr(o, a)
                 if isinstance(o, AStr) or (isinstance(o, Sym) and o.kind == "str"):
@@ -1317,8 +1413,19 @@ class Interp:
                 if keys[i] < keys[best]:
                     best = i
             return items[best]
+        if name == "enumerate" and isinstance(pos[0], (StreamVal, HostIter)):
+            return HostIter(enumerate(pos[0], *pos[1:]), "enumerate(%s)" % pos[0].name)
         if name == "enumerate" and isinstance(pos[0], (list, tuple)):
-            return [(i, x) for i, x in enumerate(pos[0])]
+            return [(i, x) for i, x in enumerate(pos[0], *pos[1:])]
+        if name == "next" and pos and isinstance(pos[0], (StreamVal, HostIter)):
+            try:
+                return next(pos[0])
+            except StopIteration:
+                if len(pos) > 1:
+                    return pos[1]
+                raise RaiseEx("StopIteration", "", node)
+        if name == "zip" and any(isinstance(x, (StreamVal, HostIter)) for x in pos):
+            return HostIter(zip(*pos), "zip")
         if name == "zip" and all(isinstance(x, (list, tuple)) for x in pos):
             return [tuple(t) for t in zip(*pos)]
         if name == "getattr":
@@ -1370,6 +1477,11 @@ class Interp:
                     return True
                 if isinstance(v, Opaque) and (v.name == short or v.kind == short):
                     return True
+                if isinstance(v, Opaque):
+                    # an object of a package class: consult the class table
+                    cs = [c for q, c in self.proj.classes.items() if q.split(".")[-1] == v.kind]
+                    if len(cs) == 1 and any(k.name == short for k in self.proj.mro(cs[0])):
+                        return True
                 if isinstance(v, Sym) and v.kind == "any":
                     res = "?"
         if res == "?":
@@ -1517,6 +1629,12 @@ class Interp:
                 return base.index(pos[0])
             if attr == "count":
                 return base.count(pos[0])
+        if isinstance(base, CounterVal) and attr == "update":
+            for a_ in pos:
+                self._counter_update(base, a_)
+            return None
+        if isinstance(base, CounterVal) and attr == "most_common":
+            return sorted(base.items(), key=lambda kv: -kv[1])
         if isinstance(base, dict):
             if attr == "get":
                 return base.get(pos[0], pos[1] if len(pos) > 1 else None)
@@ -1565,6 +1683,9 @@ class Interp:
                 return self.ext_summaries[full](self, pos, kw, node)
             if full in ("copy.copy", "copy.deepcopy") and pos:
                 return self._copy_of(pos[0])
+            r_ = self._lazy_lib(full, pos, kw, node)
+            if r_ is not NotImplemented:
+                return r_
         # ---- opaque receivers
         if isinstance(base, (Opaque, Sym)) and isinstance(base.attrs.get(attr), (Callback, FuncVal, LambdaVal, Builtin, TypeVal)):
             # an attribute holding a callable (self.transform)
